@@ -30,6 +30,8 @@ import (
 //	kind "builtin"/"ext": expression  f(recv?, args…)            (one result; recv is passed first for methods)
 //	kind "len":           expression  len(recv)
 //	kind "self":          expression  recv                        (Buffer.Bytes(), Buffer.String())
+//	kind "lit":           expression  the literal f (a GoMini value), of static type res[0]   (bufferpool.Get() = empty buffer)
+//	kind "nop":           statement   nothing                     (buf.Free(): returning a buffer to its pool has no meaning here)
 //	kind "mut":           statement   recv = f(recv, args…)       (recv must be assignable)
 //	kind "set":           statement   recv = <zero value / args[0]>  (Reset(), Store(v))
 //	kind "addret":        statement   recv = recv + arg (at width f); lhs = recv          (atomic Add, sequential meaning)
@@ -653,6 +655,17 @@ func (x *xl) callExpr(c *ast.CallExpr) (tx, bool) {
 			x.fail(c, "shim self on %s", key)
 		}
 		return tx{lean: recvLean, typ: sh.res[0]}, false
+	case "lit":
+		if len(sh.res) != 1 || len(c.Args) != 0 {
+			x.fail(c, "shim lit on %s", key)
+		}
+		return tx{lean: "(.lit (" + sh.f + "))", typ: sh.res[0]}, false
+	case "nop":
+		for _, a := range c.Args {
+			_ = x.expr(a) // the arguments must still be inside the subset
+		}
+		pendingCall = &tcall{ctor: "nop"}
+		return tx{}, true
 	case "builtin", "ext":
 		if len(sh.res) != 1 {
 			x.fail(c, "shim %s needs one result type", key)
@@ -1074,6 +1087,11 @@ func (x *xl) stmt(s ast.Stmt) string {
 
 func (x *xl) emitCall(n ast.Node, pc *tcall, lvs []string, ltyps []string) string {
 	switch pc.ctor {
+	case "nop":
+		if len(lvs) != 0 {
+			x.fail(n, "a call without meaning has no value")
+		}
+		return ".skip"
 	case "mut":
 		if len(lvs) != 0 {
 			x.fail(n, "a receiver-mutating call has no value")
